@@ -25,7 +25,7 @@ func TestMain(m *testing.M) {
 var bias = ls.Bias{
 	MinLanes:  2,
 	Weights:   map[ls.OpKind]int{ls.OpPush: 8, ls.OpSpawnPush: 5, ls.OpOpen: 2, ls.OpSettle: 6, ls.OpAdvance: 3, ls.OpStatus: 1, ls.OpFreeze: 1, ls.OpThaw: 1},
-	TaskKinds: []ls.TaskKind{ls.TInstant, ls.TInstant, ls.TInstant, ls.TSleep, ls.TGated, ls.TPanic},
+	TaskKinds: []ls.TaskKind{ls.TInstant, ls.TInstant, ls.TInstant, ls.TSleep, ls.TGated, ls.TPanic, ls.TNil},
 	PinFirst:  true,
 	MaxOps:    40,
 }
@@ -55,7 +55,7 @@ func TestScenarios(t *testing.T) {
 
 var anySize = ls.Bias{
 	Weights:   map[ls.OpKind]int{ls.OpPush: 8, ls.OpSpawnPush: 6, ls.OpOpen: 2, ls.OpSettle: 4, ls.OpAdvance: 3},
-	TaskKinds: []ls.TaskKind{ls.TInstant, ls.TSleep, ls.TSleep, ls.TGated, ls.TPanic},
+	TaskKinds: []ls.TaskKind{ls.TInstant, ls.TSleep, ls.TSleep, ls.TGated, ls.TPanic, ls.TNil},
 	MaxOps:    40,
 	LaneFocus: true,
 }
